@@ -59,9 +59,9 @@ namespace C17
 
 /-- what the printed form of a call-style object denotes: the callable's name applied to the positional arguments in order,
 followed by the keyword arguments `name = value` in the order given -/
-theorem call_denotes (f : QualName) (args : List PyVal) (kwargs : List (Str × PyVal)) :
+theorem call_denotes (f : QualName) (args : List PyVal) (kwargs : List (Str × PyVal)) (hn : okName f.2 = true) :
     erase (.call f args kwargs) = .call f.2 (eraseL args ++ eraseK kwargs) := by
-  simp [erase]
+  simp [erase, okName_not_fsetLit f args kwargs hn, callR]
 
 theorem kwargs_denote (k : Str) (v : PyVal) (r : List (Str × PyVal)) : eraseK ((k, v) :: r) = .kwarg k (erase v) :: eraseK r := by
   simp [eraseK]
@@ -69,12 +69,12 @@ theorem kwargs_denote (k : Str) (v : PyVal) (r : List (Str × PyVal)) : eraseK (
 /-- **C17.output_reads_back** — evaluating the printed text performs that call: at every width / ribbon / indent the output
 reads back, up to literal splitting, to `call_denotes`. -/
 theorem output_reads_back (s : Settings) (f : QualName) (args : List PyVal) (kwargs : List (Str × PyVal))
-    (hw : wfVal (.call f args kwargs)) (hin : inRd (.call f args kwargs) = true)
+    (hw : wfVal (.call f args kwargs)) (hin : inRd (.call f args kwargs) = true) (hn : okName f.2 = true)
     (hd : s.depth = none) (hm : s.maxSeqLen = none) (hs : s.sortKeys = false) :
     ∃ ts, TEq (ctoks (sdocsM s (.call f args kwargs))) ts ∧
       parseV (need (.call f args kwargs)) ts = some (.call f.2 (eraseL args ++ eraseK kwargs), []) := by
   have := C01.output_reads_back' s (.call f args kwargs) hw hin hd hm hs
-  rwa [call_denotes] at this
+  rwa [call_denotes f args kwargs hn] at this
 
 end C17
 end PP
